@@ -195,8 +195,8 @@ def _c11_vm_sample(d, tier, coq, build):
 
 CONFIG = {
     "properties_file": "Properties/C11.v",
-    "proof_files": ["Base/Prelude.v", "Proofs/FileConfine.v"],
-    "model_files": ["Model/FileConfine.v"],
+    "proof_files": ["Base/Prelude.v", "Proofs/FileConfine.v", "Proofs/FileConfineSrc.v"],
+    "model_files": ["Generated/GC11.v", "Model/FileConfine.v"],
     "extract": "XC11.v",
     "ml_main": "c11_main.ml",
     "harness": "c11",
